@@ -14,6 +14,8 @@ var commands = map[string]func([]string){
 	"c03":   cmdC03,
 	"c05":   cmdC05,
 	"c20":   cmdC20,
+	"asteq": cmdAsteq,
+	"vrace": cmdVrace,
 }
 
 func main() {
